@@ -635,7 +635,8 @@ def _run_ignore(case):
       rst_leaves = [tiny.leaf_bytes(l) for l in jax.tree_util.tree_leaves(rstate)]
       out['steps'].append({'named_same': named_same, 'rest_same': rest_same, 'state_same': st_leaves == rst_leaves,
                            'input_same': tiny.same_snapshot(before, tiny.snapshot(params)),
-                           'structure_same': jax.tree_util.tree_structure(params2) == jax.tree_util.tree_structure(params),
+                           'structure_same': tiny.kinds(params2) == tiny.kinds(params),
+                           'flatmap_for_dict': type(params2).__name__ != type(params).__name__,
                            'p': _flat(params), 'g': _flat(grads), 'p_new': _flat(p2),
                            'keys_same': sorted((m, n) for m in p2 for n in p2[m]) == sorted((m, n) for m, n, _ in _IG_KEYS)})
       params, state = (p2 if s % 2 else params2), state2
@@ -825,7 +826,7 @@ def _or_ignore(case, obs):
     if not so['rest_same'] or not so['state_same']:
       out.append(('ignore.rest-differs-from-base', f'step {s}: trainable parameters / optimizer state differ from the base optimizer on the restricted tree'))
     if not so.get('structure_same', True):
-      out.append(('ignore.container-type-changed', f'step {s}: the returned params do not have the tree structure (container kinds) of the params passed in'))
+      out.append(('ignore.container-type-changed', f'step {s}: the returned params do not have the keys / nesting / leaf order of the params passed in (dict ~ FlatMap)'))
     if not so['input_same']:
       out.append(('ignore.input-mutated', f'step {s}: the input parameter tree was modified'))
   return out
